@@ -42,24 +42,25 @@ Proof. exact foreign_checkpoint_refused. Qed.
 Print Assumptions C18_foreign_checkpoint_refused.
 
 (* DeleteRange = the underlying call (after one LastIndex read, which has no
-   effect); the verifier state restarts iff the range reached that last index *)
+   effect; lf = that read failed); the verifier state restarts iff the read failed
+   or the range reached that last index *)
 Theorem C18_passthrough_delete :
-  forall nd mn mx,
+  forall nd mn mx lf,
     match delete_range (n_store nd) mn mx with
-    | Some s' => node_delete nd mn mx = (true, snd (node_delete nd mn mx)) /\
-                 n_store (snd (node_delete nd mn mx)) = s' /\
-                 n_v (snd (node_delete nd mn mx)) =
-                   (if last_index (n_store nd) <=? mx then v_init else n_v nd)
-    | None => fst (node_delete nd mn mx) = false /\
-              n_store (snd (node_delete nd mn mx)) = n_store nd /\
-              n_v (snd (node_delete nd mn mx)) = n_v nd
+    | Some s' => node_delete nd mn mx lf = (true, snd (node_delete nd mn mx lf)) /\
+                 n_store (snd (node_delete nd mn mx lf)) = s' /\
+                 n_v (snd (node_delete nd mn mx lf)) =
+                   (if lf || (last_index (n_store nd) <=? mx) then v_init else n_v nd)
+    | None => fst (node_delete nd mn mx lf) = false /\
+              n_store (snd (node_delete nd mn mx lf)) = n_store nd /\
+              n_v (snd (node_delete nd mn mx lf)) = n_v nd
     end.
 Proof. exact passthrough_delete. Qed.
 Print Assumptions C18_passthrough_delete.
 
 Theorem C18_passthrough_other :
   forall cpf nd ev,
-    match ev with HStore _ _ | HDelete _ _ _ | HTamper _ _ _ => True
+    match ev with HStore _ _ | HDelete _ _ _ _ | HTamper _ _ _ => True
     | _ => n_store (node_step cpf nd ev) = n_store nd end.
 Proof. exact passthrough_other. Qed.
 Print Assumptions C18_passthrough_other.
